@@ -468,6 +468,21 @@ pub fn format_swift_amount(amount: f64, decimals: usize) -> String {
 /// assert_eq!(format_swift_amount_for_currency(1500000.0, "JPY"), "1500000");
 /// assert_eq!(format_swift_amount_for_currency(123.456, "BHD"), "123,456");
 /// ```
+/// Format an amount that carries no currency (fields 19, 37H, 61): every decimal the
+/// value has is written, padded with zeros up to `min_decimals`.
+pub fn format_swift_amount_min_decimals(amount: f64, min_decimals: usize) -> String {
+    // `{}` is the shortest text that reads back as the same f64 (never an exponent)
+    let shortest = format!("{}", amount);
+    let (int_part, frac_part) = match shortest.split_once('.') {
+        Some((i, f)) => (i.to_string(), f.to_string()),
+        None => (shortest, String::new()),
+    };
+    if min_decimals == 0 && frac_part.is_empty() {
+        return int_part;
+    }
+    format!("{},{:0<width$}", int_part, frac_part, width = min_decimals)
+}
+
 pub fn format_swift_amount_for_currency(amount: f64, currency: &str) -> String {
     let decimals = get_currency_decimals(currency);
     format_swift_amount(amount, decimals as usize)
